@@ -23,9 +23,10 @@
    380   covariance = diag(R) - (Q.T @ Q)                       grad_cov      [D15 repaired]
    386-7 mu_q = array(mu_q)[:, :, 0] + array(mean_grads)       grad_mean     [D14 repaired]
    spatial_derivatives:
-   411   Q = solve_triangular(L.T, solve_triangular(L, K_qx.T, lower=True))   dvar_Q
-   414   dmu_dx = A @ (K_qx * self.alpha).T                     grad_mean_kernel  (+ mean part: grad_mean)
-   415   dV_dx = -2 * (A * K_qx[None, :]) @ Q                   dvar
+   413   Q = solve_triangular(L.T, solve_triangular(L, K_qx.T, lower=True))   dvar_Q_s
+   416   dmu_dx = A @ (K_qx * self.alpha).T                     grad_mean_kernel
+   423-4 mu_gradients = ...[:, :, 0] + array(mean_grads)        grad_mean     [D14 repaired]
+   417   dV_dx = -2 * (A * K_qx[None, :]) @ Q                   dvar
    mean.py: spatial_gradient
    ConstantMean   zeros(q.size)                                 dmean_const
    LinearMean     zeros(q.size) + theta[1:]                     dmean_linear
